@@ -30,4 +30,7 @@ def all : List (String × Tab) := [("ASCII", ASCII), ("ACGT", ACGT), ("ACGTN", A
 
 def codon : List Nat := [70, 70, 76, 76, 83, 83, 83, 83, 89, 89, 42, 42, 67, 67, 42, 87, 76, 76, 76, 76, 80, 80, 80, 80, 72, 72, 81, 81, 82, 82, 82, 82, 73, 73, 73, 77, 84, 84, 84, 84, 78, 78, 75, 75, 83, 83, 82, 82, 86, 86, 86, 86, 65, 65, 65, 65, 68, 68, 69, 69, 71, 71, 71, 71]
 
+/-- `is_stranded()` of a derived interval object for a stranded / an unstranded original, per derivation -/
+def giFlags : GFlags := { clip := ⟨true, false⟩, idx := ⟨true, false⟩, replace := ⟨true, false⟩, concat := ⟨true, false⟩, windows := ⟨true, false⟩ }
+
 end Gen.C14
